@@ -147,11 +147,21 @@ theorem value_rowval (S : NStore) (hl : LevelOk S) (d : Nat) (hsub : SubOk d S) 
      (fcOf S.pol (compact S.pol d) (v.bytes ++ extSer x) = some (cval v).bytes ∧ x = none)) := by
   cases v with
   | raw b =>
-    simp only [valueOk, bne_iff_ne, ne_eq] at hv
+    simp only [valueOk, Bool.or_eq_true, bne_iff_ne, ne_eq] at hv
     refine ⟨rfl, Or.inl ⟨?_, rfl⟩⟩
     unfold fcOf
-    have : ((NValue.raw b).bytes ++ extSer x).take 4 ≠ sig := hv
-    simp [this]
+    rcases hv with hv | hv
+    · have : ((NValue.raw b).bytes ++ extSer x).take 4 ≠ sig := hv
+      simp [this]
+    · -- begins with the signature but `NewNVarStore` refuses it: nothing nested to compact
+      have hb : (NValue.raw b).bytes = b := rfl
+      rw [hb]
+      unfold notStore at hv
+      split at hv
+      · cases hv
+      · rename_i e he
+        rw [he]
+        split <;> rfl
   | store n =>
     simp only [valueOk, Bool.and_eq_true, Option.isNone_iff_eq_none, beq_iff_eq] at hv
     obtain ⟨hx, hpol⟩ := hv
